@@ -14,8 +14,11 @@ Import ListNotations.
 (** ** Virtual parameters *)
 
 (** virtual_<T&> | virtual_<T&&> | virtual_<T*> | virtual_<std::shared_ptr<T>> |
-    virtual_<const std::shared_ptr<T>&> | virtual_ptr<T> | virtual_shared_ptr<T> *)
-Inductive kind := KRef | KRRef | KPtr | KShared | KCShared | KVptr | KVSptr.
+    virtual_<const std::shared_ptr<T>&> | virtual_ptr<T> | virtual_shared_ptr<T> |
+    const virtual_shared_ptr<T>& (method AND definition take the const reference;
+    the plain const virtual_ptr<T>& has no definitions that compile:
+    virtual_ptr::cast names Other::element_type on a reference type) *)
+Inductive kind := KRef | KRRef | KPtr | KShared | KCShared | KVptr | KVSptr | KCVSptr.
 
 Inductive cast_op := CStatic | CDynamic.
 
@@ -28,7 +31,7 @@ Inductive expr := EPrvalue | EXvalue | ELvalue.
     virtual_ptr: rarg = the virtual_ptr, method::vptr reads its _vptr(). *)
 Definition rarg_reads_object (k : kind) : bool :=
   match k with
-  | KVptr | KVSptr => false
+  | KVptr | KVSptr | KCVSptr => false
   | _ => true
   end.
 
@@ -37,8 +40,10 @@ Definition rarg (k : kind) (s : sub) : sub := s.
 
 (** Kinds whose [cast] goes through [optimal_cast] with the two CLASS types
     (requires_dynamic_cast<B&, D&>): T&, T&&, T* (detail.hpp:258-298),
-    virtual_ptr<T> (core.hpp:384) and virtual_shared_ptr<T>
-    (detail.hpp:325, requires_dynamic_cast<Class&, OtherClass&>). *)
+    virtual_ptr<T> (core.hpp:384) and virtual_shared_ptr<T>, by value or by
+    const reference (detail.hpp:320-330: virtual_ptr_traits<shared_ptr<Class>>::cast
+    strips the reference from its OtherPtrRef argument, takes the element class
+    of the box and tests requires_dynamic_cast<Class&, OtherClass&>). *)
 Definition uses_optimal_cast (k : kind) : bool :=
   match k with
   | KShared | KCShared => false
@@ -48,7 +53,7 @@ Definition uses_optimal_cast (k : kind) : bool :=
 (** Smart-pointer kinds (a control block travels with the pointer). *)
 Definition is_smart (k : kind) : bool :=
   match k with
-  | KShared | KCShared | KVSptr => true
+  | KShared | KCShared | KVSptr | KCVSptr => true
   | _ => false
   end.
 
@@ -105,13 +110,14 @@ Definition thunk_ctrl (k : kind) (ctrl : N) (res : option sub) : option N :=
     before the call: the caller's expression is copied (lvalue: +1) or moved
     (+0) into the first by-value parameter, every forwarding layer moves it
     (std::forward, +0), and [cast] makes the definition's pointer while the
-    thunk's parameter is still alive (+1).  const shared_ptr<T>& travels by
-    reference; only [cast]'s result is added. *)
+    thunk's parameter is still alive (+1).  const shared_ptr<T>& and
+    const virtual_shared_ptr<T>& travel by reference; only [cast]'s result (a
+    temporary the definition's reference binds to) is added. *)
 Definition uc_delta (k : kind) (e : expr) : option nat :=
   match k with
   | KShared | KVSptr =>
       Some (match e with ELvalue => 2 | _ => 1 end)
-  | KCShared => Some 1
+  | KCShared | KCVSptr => Some 1
   | _ => None
   end.
 
@@ -204,7 +210,7 @@ Definition thunk_return (r : route) (k : rkind) (v : N) : nstate := mk_nstate v 
 
 Definition kind_of_nat (n : nat) : kind :=
   match n with
-  | 0 => KRef | 1 => KRRef | 2 => KPtr | 3 => KShared | 4 => KCShared | 5 => KVptr | _ => KVSptr
+  | 0 => KRef | 1 => KRRef | 2 => KPtr | 3 => KShared | 4 => KCShared | 5 => KVptr | 6 => KVSptr | _ => KCVSptr
   end.
 
 Definition expr_of_nat (n : nat) : expr :=
